@@ -71,6 +71,24 @@ def verdict(call):
     return "accept", ""
 
 
+class _active:
+    """The workspace open (read-only unless already open) for the duration of a block, then back as it was."""
+
+    def __init__(self, ws):
+        self.ws, self.opened = ws, False
+
+    def __enter__(self):
+        if not self.ws._geoh5:  # pylint: disable=protected-access
+            self.ws.open(mode="r")
+            self.opened = True
+        return self.ws
+
+    def __exit__(self, *exc):
+        if self.opened:
+            self.ws.close()
+        return False
+
+
 def first_diff(a, b, path=""):
     if isinstance(a, dict) and isinstance(b, dict):
         for k in sorted(set(a) | set(b)):
@@ -317,11 +335,14 @@ class InputFileScenario(BaseScenario):
 
         built = verdict(build)
         if built[0] != "accept":
-            # the aged object's current form is refused by a fresh object (an earlier verdict difference, already
-            # reported where it happened, or a known finding): nothing to compare against
+            # the aged object's current form (with its data) is refused by a fresh object: an earlier verdict difference,
+            # already reported where it happened, a known finding, or a legal but inconsistent state (parent changed, child
+            # kept).  Whole-data and validator calls have nothing to compare against; a single-value assignment is still
+            # compared with the second entry point below.
             sim.probe("twin_unbuildable")
-            return "no_twin:" + built[0]
-        twin = twin_holder["t"]
+            if kind != "set":
+                return "no_twin:" + built[0]
+        twin = twin_holder["t"] if built[0] == "accept" else None
         key = keys[r.randrange(len(keys))]
         if kind in ("set", "validate"):
             value = self.domain(key, env, r)
@@ -329,7 +350,7 @@ class InputFileScenario(BaseScenario):
                 sim.probe("none_value")
             if kind == "set":
                 call_a = lambda: aged.set_data_value(key, value)  # noqa: E731
-                call_t = lambda: twin.set_data_value(key, value)  # noqa: E731
+                call_t = (lambda: twin.set_data_value(key, value)) if twin is not None else None  # noqa: E731
             else:
                 call_a = lambda: aged.validators.validate(key, value)  # noqa: E731
                 call_t = lambda: twin.validators.validate(key, value)  # noqa: E731
@@ -364,9 +385,45 @@ class InputFileScenario(BaseScenario):
                        and aged.validations[k]["optional"] == requires_value(aged.ui_json, k))
         typeless = [k for k in judged_keys if isinstance(aged.ui_json.get(k), dict) and aged.ui_json[k].get("value") is None
                     and not any(m in aged.ui_json[k] for m in ("choiceList", "meshType", "parent", "isValue", "fileType", "groupType"))]
-        ver_t = call_t_result = verdict(call_t)
+        ver_v = None
+        if kind == "set":
+            # second entry point for the same question: a fresh InputValidation on the current form, asked directly
+            # (rules of the key, the parent named by the rule resolved from the current data, one_of left to whole-data calls)
+            data_now = dict(aged.data)
+
+            ref_holder = {}
+
+            def build_ref():
+                ref_holder["r"] = self.make_file(copy_tree(aged_form), custom, cfg)
+
+            def call_v():
+                from uuid import UUID
+
+                ref = ref_holder["r"]
+                rules = (ref.validations or {}).get(key)
+                if rules is None:
+                    return
+                rules = dict(rules)
+                if "association" in rules:
+                    parent = data_now[rules["association"]]
+                    if isinstance(parent, UUID):
+                        parent = env["ws"].get_entity(parent)[0]
+                    rules["association"] = parent
+                rules.pop("one_of", None)
+                ref.validators.validate(key, value, rules)
+
+            aged_form = copy_tree(aged.ui_json)
+            # (same workspace state as the aged call: set_data_value does not open a closed workspace itself)
+            if verdict(build_ref)[0] == "accept":
+                ver_v = verdict(call_v)
+        ver_t = verdict(call_t) if call_t is not None else None
         ver_a = verdict(call_a)
-        del call_t_result
+        if ver_v is not None and (ver_a[0] == "accept") != (ver_v[0] == "accept") and not (typeless and "TypeValidationError" in (ver_a[0], ver_v[0])):
+            raise Violation("C15", "verdict_differs", f"{what}: the aged object says {ver_a[0]} ({ver_a[1]}); a fresh InputValidation on the same form, asked directly for "
+                            f"this key and value, says {ver_v[0]} ({ver_v[1]})",
+                            {"api": kind, "via": "validators", "aged": "accept" if ver_a[0] == "accept" else "reject", "stale_switch": bool(stale), "one_of": False})
+        if ver_t is None:
+            ver_t = ver_v if ver_v is not None else ver_a     # nothing fresh to compare with: only the rejection check below applies
         if "obj" in changed:
             sim.probe("parent_changed")
         # a plain form whose current value is None declares no type (a fresh object falls back to str, the aged one
